@@ -24,6 +24,11 @@ pub trait SeqModel: Sync {
     fn step(&self, w: &mut Self::World, letter: usize) -> Vec<StepViolation>;
     /// canonical key of everything later behaviour can depend on
     fn key(&self, w: &Self::World) -> String;
+    /// a leaf letter is executed and checked in every state, but its successor is not expanded
+    /// (deviation-bounded exploration: arbitrary prefixes over the expandable letters + one leaf)
+    fn is_leaf(&self, _letter: usize, _depth: usize) -> bool {
+        false
+    }
 }
 
 pub struct SeqConfig {
@@ -50,6 +55,8 @@ pub struct SeqResult {
     pub violations: Vec<FoundViolation>,
     pub samples: Vec<Vec<usize>>,
     pub cap_hit: Option<String>,
+    /// successor states reached by leaf letters (checked, not expanded, not deduplicated)
+    pub leaf_successors: u64,
 }
 
 pub static DUMP: std::sync::OnceLock<Mutex<std::fs::File>> = std::sync::OnceLock::new();
@@ -75,6 +82,7 @@ pub fn explore<M: SeqModel>(m: &M, cfg: &SeqConfig) -> SeqResult {
     let histories = AtomicU64::new(0);
     let violations: Mutex<Vec<FoundViolation>> = Mutex::new(vec![]);
     let stop = AtomicBool::new(false);
+    let leaf_states = AtomicU64::new(0);
     let cap_hit: Mutex<Option<String>> = Mutex::new(None);
 
     {
@@ -145,6 +153,8 @@ pub fn explore<M: SeqModel>(m: &M, cfg: &SeqConfig) -> SeqResult {
                             let k1 = m.key(&w);
                             if k1 == k0 {
                                 dirty = false;
+                            } else if m.is_leaf(l, depth) {
+                                leaf_states.fetch_add(1, Ordering::Relaxed);
                             } else {
                                 let inserted = {
                                     let mut vis = visited.lock().unwrap();
@@ -213,6 +223,7 @@ pub fn explore<M: SeqModel>(m: &M, cfg: &SeqConfig) -> SeqResult {
         violations: vs,
         samples,
         cap_hit: cap,
+        leaf_successors: leaf_states.load(Ordering::Relaxed),
     }
 }
 
